@@ -16,7 +16,6 @@ import (
 	"github.com/plgd-dev/go-coap/v3/message/pool"
 	"github.com/plgd-dev/go-coap/v3/net/responsewriter"
 	"github.com/plgd-dev/go-coap/v3/options"
-	"github.com/plgd-dev/go-coap/v3/tcp"
 	tcpClient "github.com/plgd-dev/go-coap/v3/tcp/client"
 	"pgregory.net/rapid"
 
@@ -27,6 +26,7 @@ import (
 	"verif/memnet"
 	"verif/peer"
 	"verif/refcodec"
+	"verif/roles"
 )
 
 type Scenario struct {
@@ -46,6 +46,9 @@ type Scenario struct {
 	// DropCode > 0: the connection has a request monitor (WithRequestMonitor) that asks to drop every
 	// message with this code; all the others are delivered, whatever the segmentation
 	DropCode int `json:"dropCode,omitempty"`
+	// Role: "" the connection of tcp.Client; "server" the connection a tcp.NewServer creates for an
+	// accepted peer (the configured sizes and monitors reach it through the server's configuration)
+	Role string `json:"role,omitempty"`
 }
 
 func isSignal(code int) bool { return code >= 225 && code <= 229 }
@@ -174,8 +177,9 @@ func Exec(t *testing.T, sc Scenario, r *evid.Run) *evid.Failure {
 		monitor := tcpClient.RequestMonitorFunc(func(_ *tcpClient.Conn, rq *pool.Message) (bool, error) {
 			return sc.DropCode > 0 && int(rq.Code()) == sc.DropCode, nil
 		})
-		cc, err := endpoints.TCP(link.A, []tcp.Option{
+		cc, stopRole, err := roles.Stream(sc.Role, link, bubble.Wait, []any{
 			endpoints.TCPCfg(func(cfg *tcpClient.Config) { cfg.RequestMonitor = monitor }), // what WithRequestMonitor sets on a server's connections
+			options.WithRequestMonitor(monitor),
 			options.WithReceivedMessageQueueSize(sc.Queue),
 			options.WithHandlerFunc(tcpClient.HandlerFunc(handler)),
 			options.WithMessagePool(pool.New(8, 2048)),
@@ -226,6 +230,7 @@ func Exec(t *testing.T, sc Scenario, r *evid.Run) *evid.Failure {
 		}
 		_ = cc.Close()
 		_ = link.B.Close()
+		stopRole()
 		bubble.Wait()
 	})
 	if res.Panic != "" {
@@ -335,6 +340,9 @@ func gen(t *rapid.T) Scenario {
 	}
 	if len(sc.Frames) == 0 {
 		sc.Frames = []refcodec.Msg{{Code: 1, Token: []byte{1}}}
+	}
+	if rapid.IntRange(0, 2).Draw(t, "role") == 0 {
+		sc.Role = "server"
 	}
 	if rapid.IntRange(0, 3).Draw(t, "monitor") == 0 {
 		// drop the code of one of the ordinary frames (or one that does not occur)
@@ -468,12 +476,15 @@ func TestCheck(t *testing.T) {
 			if sc.DropCode > 0 {
 				cls = append(cls, "framing/request-monitor-drops-a-code")
 			}
+			if sc.Role == "server" {
+				cls = append(cls, "framing/connection-created-by-a-server")
+			}
 			r.Case("framing", key, func() any { return summary(sc) }, cls...)
 		}
 		return f
 	})
 	r.Main(evid.Meta{
-		Rule:        "a stream connection (tcp.Client on an in-memory stream, connection cache size in {1,2,3,7,64,2048}, received-message queue 0/1/2/16, handler instantaneous or taking 1 virtual ms, optionally a request monitor that asks to drop every message of one code) fed by the scripted peer with 1-12 frames from the C01 generator (all Len classes, TKL 0-8, signalling and ordinary codes, payloads beyond 65805 occasionally), cut by a generated segmentation (single bytes, cuts inside headers, several frames per segment), each segment followed by quiescence; optionally one frame is replaced by a header declaring more than the maximum message size (max, max+1, 2*max, next to 2^32) with no body byte supplied. Oracle: handler log and signal log equal the sent sequence whatever the segmentation, every Ping answered by a Pong with its token, oversize: nothing from that frame on is delivered and the connection is closed with an error reported. Non-trivial = >= 2 frames and a cut inside a header or >= 2 frames in one segment (measured: class framing/nontrivial-segmentation); distinct by scenario",
+		Rule:        "a stream connection (tcp.Client on an in-memory stream, or the connection a tcp.NewServer creates for a peer accepted from an in-memory listener, connection cache size in {1,2,3,7,64,2048}, received-message queue 0/1/2/16, handler instantaneous or taking 1 virtual ms, optionally a request monitor that asks to drop every message of one code) fed by the scripted peer with 1-12 frames from the C01 generator (all Len classes, TKL 0-8, signalling and ordinary codes, payloads beyond 65805 occasionally), cut by a generated segmentation (single bytes, cuts inside headers, several frames per segment), each segment followed by quiescence; optionally one frame is replaced by a header declaring more than the maximum message size (max, max+1, 2*max, next to 2^32) with no body byte supplied. Oracle: handler log and signal log equal the sent sequence whatever the segmentation, every Ping answered by a Pong with its token, oversize: nothing from that frame on is delivered and the connection is closed with an error reported. Non-trivial = >= 2 frames and a cut inside a header or >= 2 frames in one segment (measured: class framing/nontrivial-segmentation); distinct by scenario",
 		Assumptions: []string{"connection cache size 0 is not a usable configuration and is not generated", "a frame's header is Len, extended length, code and token: all of them are supplied before the close is required"},
 		Floor:       300,
 	}, eng, cutsEngine(t))
